@@ -55,6 +55,14 @@ class Prov(object):
             if isinstance(value, (ast.Tuple, ast.List)) and len(value.elts) == len(target.elts):
                 for t, v in zip(target.elts, value.elts):
                     self._bind(t, v)
+            elif isinstance(value, (ast.ListComp, ast.GeneratorExp)) and len(value.generators) == 1 \
+                    and isinstance(value.generators[0].target, ast.Name) and not value.generators[0].ifs \
+                    and isinstance(value.generators[0].iter, (ast.Tuple, ast.List)) \
+                    and len(value.generators[0].iter.elts) == len(target.elts):
+                # elementwise map over a literal tuple:  a, b = [f(v) for v in (x, y)]  ==  a = f(x); b = f(y)
+                gv = value.generators[0].target.id
+                for t, src in zip(target.elts, value.generators[0].iter.elts):
+                    self._bind(t, nf.subst(value.elt, {gv: src}))
             elif isinstance(value, ast.Call) and nf.callee_name(value) == 'zip' and len(value.args) == len(target.elts):
                 for t, v in zip(target.elts, value.args):
                     self._bind(t, v)
@@ -562,3 +570,36 @@ def resolve_scope_alias(idx, fi, name):
         if m.alias == name and m.alias_same and isinstance(m.scope_arg, ast.Name):
             return m.scope_arg.id
     return name
+
+
+def inline_expr_helpers(idx, fi, node, depth=2):
+    """Replace calls of newly extracted (unreviewed) helpers that consist of ONE `return <expr>` (after forward
+    substitution, no side effects) by that expression with the arguments substituted: `self.h(a)` / `h(a)`.  AST only."""
+    from ..index import clone
+    unrev = set(getattr(idx, 'unreviewed', []) or [])
+
+    class T(ast.NodeTransformer):
+        def visit_Call(self, c):
+            self.generic_visit(c)
+            try:
+                targets, how = idx.resolve_call(fi, c)
+            except Exception:
+                return c
+            targets = [t for t in targets if not isinstance(t, tuple)]
+            if len(targets) != 1 or targets[0].qualname not in unrev or c.keywords:
+                return c
+            h = targets[0]
+            params = list(h.params)
+            if h.cls is not None and not h.is_static and isinstance(c.func, ast.Attribute):
+                params = params[1:]
+            if len(params) != len(c.args) or h.node.args.defaults:
+                return c
+            hp = nf.decision_paths(h.node.body)
+            if len(hp) == 1 and hp[0].leaf.kind == 'ret' and not hp[0].effects and hp[0].leaf.expr is not None:
+                return nf.subst(hp[0].leaf.expr, dict(zip(params, c.args)))
+            return c
+    out = clone(node)
+    for _ in range(depth):
+        out = T().visit(out)
+    ast.fix_missing_locations(out)
+    return out
